@@ -145,7 +145,7 @@ Qed.
 
 Theorem sprintf_s_agree chars ffmt d pre post aw ap a extra wv pv s :
   wf_dir d = true -> d_conv d = Cs -> c_defined d = true ->
-  no_pct pre = true -> no_pct post = true -> in_lim d wv pv ->
+  no_pct pre = true -> no_pct post = true -> lim d wv pv ->
   (d_width d = WStar -> awk_int (v_num aw) = Some wv) ->
   (d_prec d = PrStar -> awk_int (v_num ap) = Some pv) ->
   v_str ffmt a = Ok s ->
@@ -154,29 +154,23 @@ Theorem sprintf_s_agree chars ffmt d pre post aw ap a extra wv pv s :
   = Ok (pre ++ c_directive chars d wv pv (AStr s) ++ post).
 Proof.
   intros Hwf Hc Hdef Hpre Hpost Hlim Hw Hp Ha Hok.
-  unfold sprintf. rewrite (parse_render d pre post Hwf Hpre Hpost).
-  assert (Hw' : d_width d = WStar -> f2i64 (v_num aw) = wv).
-  { intros E. apply f2i64_awk_int; [exact (Hw E)|]. destruct Hlim as [L _]. rewrite E in L. unfold two63. lia. }
-  assert (Hp' : d_prec d = PrStar -> f2i64 (v_num ap) = pv).
-  { intros E. apply f2i64_awk_int; [exact (Hp E)|]. destruct Hlim as [_ L]. rewrite E in L. unfold two63. lia. }
-  assert (Hg : conv_arg chars ffmt (conv_ty (d_conv d)) a = Ok (GStr s)).
-  { rewrite Hc. cbn [conv_ty conv_arg]. rewrite Ha. reflexivity. }
-  destruct (conv_args_render chars ffmt d aw ap a extra wv pv _ Hw' Hp' Hg) as [Hca Hlen].
-  rewrite Hlen, Hca. cbn [rbind].
-  destruct (go_sprintf_render d wv pv (GStr s) pre post Hwf Hlim Hpre Hpost) as (f & Hst & Hgo).
-  rewrite Hgo. unfold c_directive. unfold c_defined in Hdef. rewrite Hc in *. cbn [go_conv_byte print_arg Z.eqb Pos.eqb orb].
-  apply andb_true_iff in Hdef as [_ H48]. apply negb_true_iff in H48.
-  destruct Hok as [Hasc | [W0 P0]].
-  - rewrite (fmt_s_ascii chars f _ s Hst (st_space_pad f d wv pv Hst H48) Hasc). reflexivity.
-  - destruct (fmt_s_plain chars f (resolve d wv pv) s Hst) as [E1 E2].
-    + unfold resolve. rewrite W0. reflexivity.
-    + unfold resolve. rewrite P0. reflexivity.
-    + rewrite E1, E2. reflexivity.
+  apply (sprintf_dir_eff chars ffmt d pre post aw ap a extra wv pv (GStr s)); try assumption.
+  - rewrite Hc. cbn [conv_ty conv_arg]. rewrite Ha. reflexivity.
+  - destruct (resolve_eff d wv pv ltac:(rewrite Hc; reflexivity) ltac:(rewrite Hc; reflexivity)) as (_ & _ & Eres & _).
+    rewrite Eres. intros f Hst. unfold c_directive. unfold c_defined in Hdef. rewrite Hc in *.
+    cbn [go_conv_byte print_arg Z.eqb Pos.eqb orb].
+    apply andb_true_iff in Hdef as [_ H48]. apply negb_true_iff in H48.
+    destruct Hok as [Hasc | [W0 P0]].
+    + rewrite (fmt_s_ascii chars f _ s Hst (st_space_pad f d wv pv Hst H48) Hasc). reflexivity.
+    + destruct (fmt_s_plain chars f (resolve d wv pv) s Hst) as [E1 E2].
+      * unfold resolve. rewrite W0. reflexivity.
+      * unfold resolve. rewrite P0. reflexivity.
+      * rewrite E1, E2. reflexivity.
 Qed.
 
 Theorem sprintf_c_agree chars ffmt d pre post aw ap a extra wv pv ch :
   wf_dir d = true -> d_conv d = Cc -> c_defined d = true ->
-  no_pct pre = true -> no_pct post = true -> in_lim d wv pv ->
+  no_pct pre = true -> no_pct post = true -> lim d wv pv ->
   (d_width d = WStar -> awk_int (v_num aw) = Some wv) ->
   conv_c chars ffmt a = Ok ch -> rune_count ch = 1 ->
   sprintf chars ffmt (pre ++ render d ++ post) (args_for d aw ap a extra)
@@ -185,18 +179,13 @@ Proof.
   intros Hwf Hc Hdef Hpre Hpost Hlim Hw Ha H1.
   unfold c_defined in Hdef. rewrite Hc in Hdef. apply andb_true_iff in Hdef as [Hdef HP]. apply andb_true_iff in Hdef as [_ H48].
   apply negb_true_iff in H48. destruct (d_prec d) eqn:EP; try discriminate.
-  unfold sprintf. rewrite (parse_render d pre post Hwf Hpre Hpost).
-  assert (Hw' : d_width d = WStar -> f2i64 (v_num aw) = wv).
-  { intros E. apply f2i64_awk_int; [exact (Hw E)|]. destruct Hlim as [L _]. rewrite E in L. unfold two63. lia. }
-  assert (Hp' : d_prec d = PrStar -> f2i64 (v_num ap) = pv) by (rewrite EP; discriminate).
-  assert (Hg : conv_arg chars ffmt (conv_ty (d_conv d)) a = Ok (GBytes ch)).
-  { rewrite Hc. cbn [conv_ty conv_arg]. rewrite Ha. reflexivity. }
-  destruct (conv_args_render chars ffmt d aw ap a extra wv pv _ Hw' Hp' Hg) as [Hca Hlen].
-  rewrite Hlen, Hca. cbn [rbind].
-  destruct (go_sprintf_render d wv pv (GBytes ch) pre post Hwf Hlim Hpre Hpost) as (f & Hst & Hgo).
-  rewrite Hgo. unfold c_directive. rewrite Hc. cbn [go_conv_byte print_arg Z.eqb Pos.eqb].
-  rewrite (fmt_s_char f _ ch Hst (st_space_pad f d wv pv Hst H48)); [reflexivity | | exact H1].
-  unfold resolve. rewrite EP. reflexivity.
+  apply (sprintf_dir_eff chars ffmt d pre post aw ap a extra wv pv (GBytes ch)); try assumption.
+  - rewrite EP. discriminate.
+  - rewrite Hc. cbn [conv_ty conv_arg]. rewrite Ha. reflexivity.
+  - destruct (resolve_eff d wv pv ltac:(rewrite Hc; reflexivity) ltac:(rewrite Hc; reflexivity)) as (_ & _ & Eres & _).
+    rewrite Eres. intros f Hst. unfold c_directive. rewrite Hc. cbn [go_conv_byte print_arg Z.eqb Pos.eqb].
+    rewrite (fmt_s_char f _ ch Hst (st_space_pad f d wv pv Hst H48)); [reflexivity | | exact H1].
+    unfold resolve. rewrite EP. reflexivity.
 Qed.
 
 (* ---- one rune is one unit (character mode %c) ---- *)
